@@ -7,18 +7,22 @@
 package protocol
 
 //@ func protocol.NewPublicKey
+//@   params typ pub asCOSE
 //@   props C10(sweep)
 //@   sweep bounds,panic,make,nilmem,div
 
 //@ func protocol.ParseKeyType
+//@   params name
 //@   props C10(sweep)
 //@   sweep bounds,panic,make,nilmem,div
 
 //@ func protocol.PublicKey.parse
+//@   params pub
 //@   props C10(sweep)
 //@   sweep bounds,panic,make,nilmem,div
 
 //@ func protocol.PublicKey.parseX509
+//@   params pub
 //@   props C10(sweep)
 //@   sweep bounds,panic,make,nilmem,div
 
